@@ -157,7 +157,7 @@ def _prune(tag, keep):
     except OSError:
         return
     ds = sorted((x for x in ds if x != keep), key=lambda x: os.path.getmtime(x), reverse=True)
-    for x in ds[1:]:
+    for x in ds[max(1, int(os.environ.get("VERIF_KEEP_GENERATIONS", "2")) - 1):]:
         shutil.rmtree(x, ignore_errors=True)
 
 
